@@ -63,7 +63,7 @@ func ruleC17R1(c *Ctx) {
 		var states map[ssa.Instruction]int
 		get := func() map[ssa.Instruction]int {
 			if states == nil {
-				states = lockStates(fn, rbLockClass)
+				states = c.lockStatesR(fn, rbLockClass)
 			}
 			return states
 		}
@@ -252,17 +252,17 @@ func ruleC17R2(c *Ctx) {
 		c.check(okFail, "C17.R2", fn, "failed reload only logs and counts", pos, "the error path calls nothing but the logger and reloadFailureCounter.Inc", "a failed reload has side effects besides logging and counting")
 	}
 	// order under the lock
-	closes := sitesWhere(fn, func(s ssa.CallInstruction) bool { return invokeOf(s, "base.BufferReceiverSink", "Close") })
-	shut := sitesWhere(fn, func(s ssa.CallInstruction) bool { return invokeOf(s, "base.Orchestrator", "Shutdown") })
+	closes := c.sitesWhereR(fn, func(s ssa.CallInstruction) bool { return invokeOf(s, "base.BufferReceiverSink", "Close") })
+	shut := c.sitesWhereR(fn, func(s ssa.CallInstruction) bool { return invokeOf(s, "base.Orchestrator", "Shutdown") })
 	var renew []ssa.CallInstruction
 	complete := resultOf(init[0].Value(), 0)
-	for _, s := range callsIn(fn) {
+	for _, s := range callsIn(fn) { // the completion function is a local value of reload itself
 		if !s.Common().IsInvoke() && strip(s.Common().Value) == complete {
 			renew = append(renew, s)
 		}
 	}
-	stores := storesToField(fn, fDownstream)
-	news := sitesWhere(fn, func(s ssa.CallInstruction) bool { return invokeOf(s, "base.Orchestrator", "NewSink") })
+	stores := c.storesToFieldR(fn, fDownstream)
+	news := c.sitesWhereR(fn, func(s ssa.CallInstruction) bool { return invokeOf(s, "base.Orchestrator", "NewSink") })
 	c.checkOrder("C17.R2", fn, "Lock", callInstrSet(locks), "closing of old sinks", callInstrSet(closes))
 	c.checkOrderL("C17.R2", fn, "closing of every old sink", callInstrSet(closes), "old downstream.Shutdown", callInstrSet(shut))
 	c.checkOrder("C17.R2", fn, "old downstream.Shutdown", callInstrSet(shut), "completeRenewal()", callInstrSet(renew))
@@ -298,10 +298,10 @@ func ruleC17R2(c *Ctx) {
 			continue
 		}
 		s := grp.sites[0]
-		lp := loopOf(fn, s.Block())
+		lp := loopOf(s.Parent(), s.Block())
 		ok := lp != nil && lp.bodyEntry != nil
 		if ok {
-			q := &PathQ{P: c.P, Barrier: func(in ssa.Instruction) bool { return in == s.(ssa.Instruction) }, EdgeBlocked: edgeSet(emptinessGuardEdges(fn, rootsOfCall(s)))} // "for every non-nil slot": the nil test of the slot is the rule's own exception
+			q := &PathQ{P: c.P, Barrier: func(in ssa.Instruction) bool { return in == s.(ssa.Instruction) }, EdgeBlocked: edgeSet(emptinessGuardEdges(s.Parent(), rootsOfCall(s)))} // "for every non-nil slot": the nil test of the slot is the rule's own exception
 			hit, _ := q.Reach(Point{lp.bodyEntry, 0}, func(in ssa.Instruction) bool {
 				return in == lp.header.Instrs[0] || isReturn(in) || (!lp.blocks[in.Block()] && in == in.Block().Instrs[0])
 			})
